@@ -673,6 +673,29 @@ def build_task(L, cfg, events):
     return sp, opt, fn, of
 
 
+def make_task(L, cfg, sp, opt, fn):
+    """the Opytimizer object a configuration asks for"""
+    if cfg.get('reassign_parts'):
+        # the task object is first built around other components (an equal space with another length, an equal optimizer, a
+        # constant objective); its three parts are then replaced through the public setters before start(): the task that runs
+        # is the one made of the current parts
+        order = cfg['reassign_parts'] if isinstance(cfg['reassign_parts'], (list, tuple)) else ['space', 'optimizer', 'function']
+        real = dict(space=sp, optimizer=opt, function=fn)
+        first = dict(real)
+        if 'space' in order:
+            first['space'] = _copy.deepcopy(sp)
+            first['space'].n_iterations = cfg['n_iter'] + 2
+        if 'optimizer' in order:
+            first['optimizer'] = _copy.deepcopy(opt)
+        if 'function' in order:
+            first['function'] = L['Function'](pointer=lambda x: 0.0)
+        task = L['Opytimizer'](**first)
+        for name in order:
+            setattr(task, name, real[name])
+        return task
+    return L['Opytimizer'](space=sp, optimizer=opt, function=fn)
+
+
 def _shifted(of):
     def other(x):
         return -1000.0 - abs(float(fnum(of(x))))
@@ -762,6 +785,14 @@ def record_run(cfg):
                     o.w_max = 0.5 * (float(o.w_min) + float(o.w_max))
                     changed = ['w_max']
                 rec['narrowed'] = dict(at=2, names=changed)
+            elif cfg['hook'] == 'nudgebest' and sum(1 for e_ in events if e_['t'] == 'hook') >= 1:
+                # the incumbent's position snapped / shifted in place (inside the box) while its fitness stays what it was, as a
+                # hook that rounds the best solution to a grid would do: the records describe the best agent as it then is
+                b_ = s.best_agent
+                for j in range(b_.position.shape[0]):
+                    lo, hi = (0.0, 1.0) if cfg['space'] == 'hyper' else (float(b_.lb[j]), float(b_.ub[j]))
+                    k_ = sum(1 for e_ in events if e_['t'] == 'hook')
+                    b_.position[j] = lo + ((0.13 * k_ + 0.07 * j) % 1.0) * (hi - lo)
             elif cfg['hook'] == 'rebest':
                 # the best agent replaced, through the public setter, by an equal new object (as a hook injecting / restoring a
                 # known solution would do): from now on that object is the space's best agent
@@ -837,7 +868,7 @@ def record_run(cfg):
         task = rec.pop('_task0')
         task.function = fn
     else:
-        task = L['Opytimizer'](space=sp, optimizer=opt, function=fn)
+        task = make_task(L, cfg, sp, opt, fn)
     rec['hp0'] = hp_snapshot(opt)
     REC.active = True
     import signal
